@@ -130,7 +130,7 @@ func (e *Engine) findIndicesNFA(haystack []byte) (int, int, bool) {
 	// (not as an external correctness gate). See pikevm.rs:1293-1299.
 	if e.prefilter != nil && !e.prefilterPartialCoverage {
 		at := 0
-		for at < len(haystack) {
+		if at < len(haystack) {
 			// Find next candidate position via prefilter
 			pos := e.prefilter.Find(haystack, at)
 			if pos == -1 {
@@ -150,9 +150,11 @@ func (e *Engine) findIndicesNFA(haystack []byte) (int, int, bool) {
 				return start, end, true
 			}
 
-			// Move past this position
+			// The search from the candidate is unanchored: it has looked at every
+			// start position from pos to the end. Trying the next candidate would
+			// repeat that scan (candidates x n steps) and cannot find anything new.
 			atomic.AddUint64(&e.stats.PrefilterMisses, 1)
-			at = pos + 1
+			return -1, -1, false
 		}
 		return -1, -1, false
 	}
@@ -182,7 +184,7 @@ func (e *Engine) findIndicesNFAAt(haystack []byte, at int) (int, int, bool) {
 
 	// Use prefilter candidate loop — safe unless partial coverage (overflow)
 	if e.prefilter != nil && !e.prefilterPartialCoverage {
-		for at < len(haystack) {
+		if at < len(haystack) {
 			pos := e.prefilter.Find(haystack, at)
 			if pos == -1 {
 				return -1, -1, false
@@ -200,8 +202,11 @@ func (e *Engine) findIndicesNFAAt(haystack []byte, at int) (int, int, bool) {
 				return start, end, true
 			}
 
+			// The search from the candidate is unanchored: it has looked at every
+			// start position from pos to the end. Trying the next candidate would
+			// repeat that scan (candidates x n steps) and cannot find anything new.
 			atomic.AddUint64(&e.stats.PrefilterMisses, 1)
-			at = pos + 1
+			return -1, -1, false
 		}
 		return -1, -1, false
 	}
@@ -1210,7 +1215,7 @@ func (e *Engine) findIndicesNFAAtWithState(haystack []byte, at int, state *Searc
 	// Use prefilter candidate loop — safe unless partial coverage (overflow).
 	// Partial-coverage prefilters would miss unrepresented branches.
 	if e.prefilter != nil && !e.prefilterPartialCoverage {
-		for at < len(haystack) {
+		if at < len(haystack) {
 			pos := e.prefilter.Find(haystack, at)
 			if pos == -1 {
 				return -1, -1, false
@@ -1228,8 +1233,11 @@ func (e *Engine) findIndicesNFAAtWithState(haystack []byte, at int, state *Searc
 				return start, end, true
 			}
 
+			// The search from the candidate is unanchored: it has looked at every
+			// start position from pos to the end. Trying the next candidate would
+			// repeat that scan (candidates x n steps) and cannot find anything new.
 			atomic.AddUint64(&e.stats.PrefilterMisses, 1)
-			at = pos + 1
+			return -1, -1, false
 		}
 		return -1, -1, false
 	}
